@@ -2,6 +2,8 @@ import NflowsModel.Real.Bridge
 import NflowsModel.Lemmas.RankedDet
 import NflowsModel.Lemmas.Nonlin
 import NflowsModel.Lemmas.LU
+import NflowsModel.Lemmas.RQBin
+import NflowsModel.Lemmas.RQWhole
 import Mathlib.Analysis.Calculus.FDeriv.Comp
 import Mathlib.LinearAlgebra.Determinant
 /-!
@@ -54,25 +56,16 @@ theorem affine_logdet {s b : ℝ} (hs : s ≠ 0) (x : ℝ) :
 theorem rq_executed_logdet {xk w yk h d0 d1 x : ℝ} (hw : 0 < w) (hh : 0 < h) (h0 : 0 < d0) (h1 : 0 < d1)
     (hx0 : xk ≤ x) (hx1 : x ≤ xk + w) :
     HasDerivAt (fun x => evalR (Bridge.rqEnv x xk w yk h d0 d1) rqFwdE)
-      (Real.exp (evalR (Bridge.rqEnv x xk w yk h d0 d1) rqFwdLdE)) x := by
-  have hs : 0 < h / w := div_pos hh hw
-  set θ := (x - xk) / w with hθ
-  have ht0 : 0 ≤ θ := div_nonneg (by linarith) hw.le
-  have ht1 : θ ≤ 1 := by rw [hθ, div_le_one hw]; linarith
-  have hden := RQ.den_pos hs h0 h1 ht0 ht1
-  have hdnum := RQ.dnum_pos hs h0 h1 ht0 ht1
-  have hg := RQ.g_hasDerivAt (h := h) hs hden.ne'
-  have hlin : HasDerivAt (fun x : ℝ => (x - xk) / w) (1 / w) x := by
-    simpa using ((hasDerivAt_id x).sub_const xk).div_const w
-  have hcomp := HasDerivAt.comp x hg hlin
-  have hfun : (fun x => evalR (Bridge.rqEnv x xk w yk h d0 d1) rqFwdE)
-      = fun x => yk + RQ.g (h / w) d0 d1 h ((x - xk) / w) := by
-    funext z; exact Bridge.rqFwdE_eq z xk w yk h d0 d1
-  rw [hfun, Bridge.rqFwdLdE_eq, RQ.logdet_eq hs h0 h1 ht0 ht1, Real.exp_log (by positivity)]
-  have hval : h / (h / w) * RQ.dnum (h / w) d0 d1 θ / (RQ.den (h / w) d0 d1 θ)^2 * (1 / w)
-      = RQ.dnum (h / w) d0 d1 θ / (RQ.den (h / w) d0 d1 θ)^2 := by
-    field_simp
-  exact (hcomp.const_add yk).congr_deriv hval
+      (Real.exp (evalR (Bridge.rqEnv x xk w yk h d0 d1) rqFwdLdE)) x :=
+  RQBin.rq_executed_logdet hw hh h0 h1 hx0 hx1
+
+/-- **End to end, RQ forward**: the derivative of the value the executed program `rqSpline … false` returns, at any
+    point strictly inside a bin, is `exp` of the log-abs-det the same program returns — for every accepted configuration
+    and every unnormalised parameter vectors (softmax, floor, cumsum, pinned end knots, search and gather included). -/
+theorem rq_program_logdet (e : Float → ℝ) (c : RQCfg) (uw uh ud : List ℝ) (hv : RQWhole.RQValid e c uw uh ud)
+    (k : ℕ) (hk : k < uw.length) (x : ℝ) (h0 : RQWhole.xs e c uw k < x) (h1 : x < RQWhole.xs e c uw (k+1)) :
+    HasDerivAt (RQWhole.val e c uw uh ud) (Real.exp (RQWhole.ld e c uw uh ud x)) x :=
+  RQWhole.val_hasDerivAt hv k hk x h0 h1
 
 /-- **Quadratic bin, as executed**: the derivative of the executed cdf term is `exp` of the executed log-det term
     (positive edge heights, point inside the bin). -/
